@@ -5,7 +5,7 @@ import ast
 from ..front import norm, walk_no_nested
 from ..symeval import is_const, show
 from . import shared as SH
-from .util import guard_text, is_self_call, leaves, mentions, subterms
+from .util import dnf_covers, guard_text, is_self_call, leaves, mentions, subterms
 
 META = {
     "explanation": (
@@ -19,6 +19,46 @@ META = {
     ),
     "trusted": ["CPython ast parser", "sa/symeval.py", "assumption: socket.recv returns the next bytes of the peer's stream, b'' at close"],
 }
+
+
+def _chunk_literal(eng, c, pol):
+    """True / False when the literal (c, pol) says "the chunked flag of the encoding field is set / clear", else None."""
+    ch = eng.ce.value("rtcmtypes_core", "ENCODE_CHUNKED") if eng.ce.has("rtcmtypes_core", "ENCODE_CHUNKED") else 1
+
+    def is_flag(t):
+        return t[0] == "bin" and t[1] == "&" and ((_field_of(t[2]) is not None and t[3] == ("const", ch)) or (_field_of(t[3]) is not None and t[2] == ("const", ch)))
+
+    if is_flag(c):
+        return pol
+    if c[0] == "cmp" and is_flag(c[2]) and is_const(c[3]):
+        if c[3][1] == 0 and c[1] in ("!=", ">"):
+            return pol
+        if c[3][1] == 0 and c[1] == "==":
+            return not pol
+        if c[3][1] == ch and c[1] == "==":
+            return pol
+        if c[3][1] == ch and c[1] == "!=":
+            return not pol
+    return None
+
+
+def _empty_implied(guards, d):
+    """the literals say that the single-byte read returned nothing (a read(1) result has length 0 or 1)"""
+    def is_len(t):
+        return t[0] == "call" and t[2] == ("builtin", "len") and t[3] == (d,)
+
+    for c, pol in guards:
+        if c == d and not pol:
+            return True
+        if c[0] == "cmp" and is_len(c[2]) and is_const(c[3]):
+            k, op = c[3][1], c[1]
+            if (op == "==" and k == 0 and pol) or (op == "!=" and k == 0 and not pol) or (op == "==" and k == 1 and not pol) or (op == "!=" and k == 1 and pol):
+                return True
+            if (op == "<" and k == 1 and pol) or (op == ">=" and k == 1 and not pol) or (op == ">" and k == 0 and not pol) or (op == "<=" and k == 0 and pol):
+                return True
+        if c[0] == "cmp" and c[2] == d and c[3] == ("const", b"") and ((c[1] == "==" and pol) or (c[1] == "!=" and not pol)):
+            return True
+    return False
 
 
 def _field_of(t):
@@ -74,6 +114,14 @@ def run(eng, ctx, reader_side=True):
                 good = bool(alts) and all(is_recv(a) or (a[0] == "proj" and a[2] == 0 and a[1][0] == "call" and is_self_call(a[1], eng.dechunker.split(".")[-1])) for a in alts)
                 ctx.check(ok and good, "C11.D1", f.qualname, norm(e.node), expected="buffer += recv() data (or the decoded part of dechunk(partial + data))", found=show(t)[:100], **loc)
                 ctx.check(e.handler is None and not e.loops, "C11.D1", f.qualname, f"{norm(e.node)} on the success path", expected="not in an exception handler or loop", found="handler" if e.handler is not None else "loop", **loc)
+                # de-chunking exactly when the chunked flag of the configured encoding is set
+                for g, a in (leaves(src) if src is not None else []):
+                    allg = tuple(e.guards) + tuple(g)
+                    pols = [_chunk_literal(eng, c, pol) for c, pol in allg]
+                    pols = [p for p in pols if p is not None]
+                    want = not is_recv(a)
+                    ctx.check(bool(pols) and all(p == want for p in pols), "C11.D1", f.qualname, f"{norm(e.node)}: {'de-chunked' if want else 'raw'} data", expected=f"under encoding & ENCODE_CHUNKED {'set' if want else 'clear'}",
+                              found=guard_text(allg)[:100] or "unconditional", **loc)
             elif f.qualname == rd.qualname:
                 pass  # checked by D2
             else:
@@ -145,6 +193,14 @@ def run(eng, ctx, reader_side=True):
 
             okg = all(any(nonempty(c, pol) for c, pol in conj) for conj in e.dnf)
             ctx.check(okg and e.handler is None, "C11.D4", rv.qualname, norm(e.node), expected="stores only after a non-empty recv, outside the exception handler", found=("in handler; " if e.handler is not None else "") + guard_text(e.guards)[:80], **eng.loc(rv, e.node))
+        bufstores = [e for e in sv.effects if e.kind == "aug" and e.target == ("self", buf)]
+        for e in sv.effects:
+            if e.kind == "return" and e.term == ("const", True):
+                # success means the received bytes are in the buffer: on every path to `return True` one of the appends has happened
+                for conj in e.dnf:
+                    done = dnf_covers(conj, [bc for b in bufstores if b.seq < e.seq for bc in b.dnf])
+                    ctx.check(done, "C11.D4", rv.qualname, f"{norm(e.node)}: data appended before success is reported", expected="buffer += <received data> on this path",
+                              found="no append on the path " + guard_text(conj)[:80], **eng.loc(rv, e.node))
         for e in sv.effects:
             if e.kind == "return":
                 empty = any(c[0] == "cmp" and c[3] == ("const", 0) and ((c[1] == "==" and pol) or (c[1] == "!=" and not pol)) for c, pol in e.guards) or any(c == data and not pol for c, pol in e.guards)
@@ -178,12 +234,9 @@ def run(eng, ctx, reader_side=True):
                 app = ("bin", "+", ("loop", lid, var), d)
                 for g, leaf in leaves(v):
                     allg = tuple(st.guards) + tuple(g)
-                    nonempty = any((c[0] == "cmp" and c[1] == "==" and c[3] == ("const", 1) and pol and c[2][0] == "call" and c[2][3] == (d,)) or (c == d and pol) or
-                                   (c[0] == "cmp" and c[1] in ("!=", ">") and c[3] == ("const", 0) and pol and c[2][0] == "call" and c[2][3] == (d,)) or
-                                   (c[0] == "cmp" and c[1] == "==" and c[3] == ("const", 0) and not pol and c[2][0] == "call" and c[2][3] == (d,)) for c, pol in allg)
                     if leaf == app:
                         ctx.ok("C11.D5", rl.qualname, f"iteration end ({kind}): byte appended", found=guard_text(allg)[:80], **eng.loc(rl, info["node"]))
-                    elif leaf == ("loop", lid, var) and not nonempty:
+                    elif leaf == ("loop", lid, var) and _empty_implied(allg, d):
                         ctx.ok("C11.D5", rl.qualname, f"iteration end ({kind}): nothing read, nothing appended", found=guard_text(allg)[:80], **eng.loc(rl, info["node"]))
                     else:
                         ctx.bad("C11.D5", rl.qualname, f"iteration end ({kind})", expected="line = line + data when a byte was read, unchanged otherwise", found=f"{show(leaf)[:60]} under {guard_text(allg)[:60]}", **eng.loc(rl, info["node"]))
@@ -193,10 +246,15 @@ def run(eng, ctx, reader_side=True):
             ctx.check(info["pre"].get(var) == ("const", b""), "C11.D5", rl.qualname, "line starts empty", expected="b''", found=show(info["pre"].get(var, ("?",))), **eng.loc(rl, rl.node))
             # termination conditions: a break under empty read, a break under CRLF suffix
             brk = [st for k, st in info.get("ends", []) if k == "break"]
-            crlf = any(any(c[0] == "cmp" and c[1] == "==" and pol and c[3] == ("const", b"\r\n") for c, pol in st.guards) for st in brk)
+            def last2(t, allowed):
+                return t[0] == "slice" and t[1] in allowed and t[2] == ("const", -2) and t[3] == ("const", None) and t[4] == ("const", None)
+
+            after = ("bin", "+", ("loop", lid, var), d)
+            crlf = any(any(c[0] == "cmp" and c[1] == "==" and pol and c[3] == ("const", b"\r\n") and last2(c[2], (after,)) for c, pol in st.guards) for st in brk)
             tst = info.get("test")
-            crlf_in_test = tst is not None and tst[0] == "cmp" and tst[1] == "!=" and tst[3] == ("const", b"\r\n") and tst[2][0] == "slice" and tst[2][1] == ("loop", lid, var)
-            empty_brk = any(any((c[0] == "cmp" and c[2][0] == "call" and c[2][2] == ("builtin", "len") and c[2][3] == (d,)) or c == d for c, pol in st.guards) for st in brk)
+            crlf_in_test = tst is not None and tst[0] == "cmp" and tst[1] == "!=" and tst[3] == ("const", b"\r\n") and last2(tst[2], (("loop", lid, var),))
+            ctx.check(crlf_in_test or (tst is not None and is_const(tst) and bool(tst[1])), "C11.D5", rl.qualname, "loop condition", expected="`while True` (left by the breaks) or the CRLF test itself", found=show(tst)[:60] if tst else "?", **eng.loc(rl, info["node"]))
+            empty_brk = any(_empty_implied(st.guards, d) for st in brk)
             ctx.check((crlf or crlf_in_test) and empty_brk, "C11.D5", rl.qualname, "termination", expected="stops at CRLF (break or loop test) and at an empty read (break)",
                       found=f"{len(brk)} break(s), CRLF break: {crlf}, CRLF in loop test: {crlf_in_test}, empty-read break: {empty_brk}", **eng.loc(rl, info["node"]))
         else:
@@ -215,15 +273,23 @@ def run(eng, ctx, reader_side=True):
     for e in st:
         for g, leaf in leaves(e.term, e.guards):
             pass
-    vals = [leaf for e in st for g, leaf in leaves(e.term)]
-    wraps = [v for v in vals if v[0] == "call" and v[2] == ("class", eng.socket_cls)]
-    plain = [v for v in vals if v == ("param", rinit.params[1])]
+    # every alternative value of the stream field with the condition it is chosen under (store guards + gates inside the term)
+    alts = [(tuple(e.guards) + tuple(g), leaf) for e in st for g, leaf in leaves(e.term)]
+    dsp = ("param", rinit.params[1])
+
+    def is_sock_test(c):
+        return c[0] == "call" and c[2] == ("builtin", "isinstance") and c[3][0] == dsp and "socket" in show(c[3][1])
+
+    wraps = [(g, v) for g, v in alts if v[0] == "call" and v[2] == ("class", eng.socket_cls)]
+    plain = [(g, v) for g, v in alts if v == dsp]
     if wraps:
-        w = wraps[0]
+        w = wraps[0][1]
         kw = dict(w[4])
-        okw = w[3][:1] == (("param", rinit.params[1]),) and kw.get("encoding", w[3][1] if len(w[3]) > 1 else None) == ("param", "encoding") and kw.get("bufsize", w[3][2] if len(w[3]) > 2 else None) == ("param", "bufsize")
+        okw = w[3][:1] == (dsp,) and kw.get("encoding", w[3][1] if len(w[3]) > 1 else None) == ("param", "encoding") and kw.get("bufsize", w[3][2] if len(w[3]) > 2 else None) == ("param", "bufsize")
         found = show(w)[:100]
     ctx.check(okw and bool(plain), "C11.D6", rinit.qualname, "stream selection", expected="SocketWrapper(datastream, encoding=encoding, bufsize=bufsize) for sockets, the object itself otherwise", found=found, **eng.loc(rinit, rinit.node))
-    conds = [c for e in si.effects if e.kind == "store" and e.target == ("self", sf) for c, pol in e.guards] + [t[1] for e in st for t in [e.term] if t[0] == "ite"]
-    oki = any(c[0] == "call" and c[2] == ("builtin", "isinstance") and c[3][0] == ("param", rinit.params[1]) and "socket" in show(c[3][1]) for c in conds)
-    ctx.check(oki, "C11.D6", rinit.qualname, "socket detection", expected="isinstance(datastream, socket)", found=", ".join(show(c)[:50] for c in conds) or "-", **eng.loc(rinit, rinit.node))
+    # polarity: wrapped exactly when the argument is a socket
+    okpol = bool(wraps) and bool(plain) and all(any(is_sock_test(c) and pol for c, pol in g) for g, _ in wraps) and all(any(is_sock_test(c) and not pol for c, pol in g) for g, _ in plain)
+    conds = [c for g, _ in alts for c, pol in g]
+    oki = okpol
+    ctx.check(oki, "C11.D6", rinit.qualname, "socket detection", expected="wrapped when isinstance(datastream, socket), passed through otherwise", found=", ".join(f"{show(v)[:30]} under {guard_text(g)[:50]}" for g, v in alts) or "-", **eng.loc(rinit, rinit.node))
